@@ -306,6 +306,20 @@ func permutations(n int, limit int, rng func(int) int) [][]int {
 	return out
 }
 
+// chainC05World: key; permanode P (never arrives); D1 deletes P; D2 deletes D1; D3 deletes D2
+func chainC05World(w *world) *c05World {
+	cw := &c05World{w: w, absent: map[int]bool{}}
+	base := time.Unix(1400000000, 0).UTC()
+	k0 := cw.add("key", w.signers[0].pub, nil, 0)
+	p := cw.add("permanode", w.permanode(0), []int{k0.id}, 0)
+	cw.absent[p.id] = true
+	prev := p
+	for i := 1; i <= 3; i++ {
+		prev = cw.add("delete", w.claim(0, schema.NewDeleteClaim(prev.b.BlobRef()), base.Add(time.Duration(i)*time.Second)), []int{k0.id}, prev.id)
+	}
+	return cw
+}
+
 func runC05(c *ctx) {
 	c.rep.Rule = "worlds of signed and unsigned blobs (public keys delivered as blobs, permanodes, attribute/path/member claims, deletes of permanodes/claims/deletes, files over chunks and nested bytes blobs, directories over (split) static sets, opaque blobs; some dependencies never arrive) delivered in every permutation (small worlds) or in sampled permutations, with duplicates, with an index restart in the middle, split over concurrent goroutines, and rebuilt by Reindex; all rows dumped at quiescence; " +
 		"non-trivial = distinct (world, order) pair in which some blob arrived before one of its dependencies"
@@ -323,6 +337,9 @@ func runC05(c *ctx) {
 			size = 8 + c.rng.Intn(8)
 		}
 		cw := genC05World(c, w, size)
+		if wi == 0 {
+			cw = chainC05World(w) // every run: deletes of deletes whose first target never arrives, all orders
+		}
 		var deliver []int
 		for _, b := range cw.blobs {
 			if !cw.absent[b.id] {
